@@ -235,6 +235,18 @@ func (g *svcGen) service(fi int) {
 		sv.Extends = &b
 		if b.File != fi {
 			g.count("svc.extends.cross_file")
+			// a LOCAL, unrelated service with the name of the included base (and of the base's base): `extends inc.X` must
+			// still mean the included one
+			if g.r.Chance(60) {
+				g.shadow(fi, b)
+				if bb := g.p.Files[b.File].Services; true {
+					for _, o := range bb {
+						if o.Name == b.Name && o.Extends != nil && o.Extends.File != fi && g.r.Chance(60) {
+							g.shadow(fi, *o.Extends)
+						}
+					}
+				}
+			}
 		} else {
 			g.count("svc.extends.same_file")
 		}
@@ -306,6 +318,49 @@ func (g *svcGen) service(fi int) {
 	if len(f.Order) > 0 {
 		f.Order = append(f.Order, idlgen.DefRef{Kind: 'v', Idx: len(f.Services) - 1})
 	}
+	g.count("svc.service")
+}
+
+func pkgOf(f *idlgen.File) string {
+	if f.GoNS != "" {
+		return f.GoNS
+	}
+	return "nons:" + f.Prefix()
+}
+
+// shadow declares in file fi a service named like `other` (a service of another file) with its own, disjoint functions,
+// unless that name is taken in fi's Go package or fi shares its package with the other file.
+func (g *svcGen) shadow(fi int, other idlgen.NamedRef) {
+	f := g.p.Files[fi]
+	if other.File == fi || pkgOf(f) == pkgOf(g.p.Files[other.File]) {
+		return
+	}
+	for _, ff := range g.p.Files {
+		if pkgOf(ff) != pkgOf(f) {
+			continue
+		}
+		for _, o := range ff.Services {
+			if norm(o.Name) == norm(other.Name) {
+				return
+			}
+		}
+	}
+	sv := &idlgen.Service{Name: other.Name}
+	for i, n := 0, 1+g.r.Intn(2); i < n; i++ {
+		fn := &idlgen.Function{Name: g.global("fn", stressFnNames, &g.nfn)}
+		if g.r.Bool() {
+			fn.Ret = base(idlgen.I32)
+		}
+		if g.r.Bool() {
+			fn.Args = []*idlgen.Field{{ID: 1, HasID: true, Name: "a0", Type: base(idlgen.String)}}
+		}
+		sv.Functions = append(sv.Functions, fn)
+	}
+	f.Services = append(f.Services, sv)
+	if len(f.Order) > 0 {
+		f.Order = append(f.Order, idlgen.DefRef{Kind: 'v', Idx: len(f.Services) - 1})
+	}
+	g.count("svc.shadow_of_included_service")
 	g.count("svc.service")
 }
 
@@ -481,4 +536,102 @@ func regressionProgram() (*idlgen.Program, map[*idlgen.Function]string) {
 		Services: []*idlgen.Service{{Name: "Main", Extends: &idlgen.NamedRef{File: 1, Name: "Base"},
 			Functions: []*idlgen.Function{{Name: "m", Ret: base(idlgen.I32), Args: []*idlgen.Field{{ID: 1, HasID: true, Name: "a0", Type: base(idlgen.I32)}}}, mu}}}}
 	return &idlgen.Program{Files: []*idlgen.File{a, b}}, map[*idlgen.Function]string{u: "unary", c: "client", mu: "bidirectional"}
+}
+
+func (m *methodInfo) drivable() bool {
+	for _, a := range m.Fn.Args {
+		if strings.HasPrefix(a.Name, "_") {
+			return false
+		}
+	}
+	return true
+}
+
+func simpleStruct(name string) *idlgen.Struct {
+	return &idlgen.Struct{Kind: 's', Name: name, Fields: []*idlgen.Field{{ID: 1, HasID: true, Name: "x", Type: base(idlgen.I32)}}}
+}
+
+func fld(id int16, name string, k idlgen.Kind) *idlgen.Field {
+	return &idlgen.Field{ID: id, HasID: true, Name: name, Type: base(k)}
+}
+
+// shadowProgram: the aimed unit for `extends` across files when the extending file declares unrelated services with the
+// names of the included base and of the base's base (the lookup of the base must go through the include, not by bare name).
+//
+//	c.thrift: service Root { i32 root_op(1: i32 a0) }
+//	b.thrift: include c; service Root { void b_local_root() }  service Health extends c.Root { string status()  oneway void beat(1: i32 a0) }
+//	a.thrift: include b; service Health { i32 local_check(1: i32 a0) }  service Root { void a_local_root() }
+//	          service Gateway extends b.Health { i32 route(1: i32 a0) }  service Edge extends Gateway { void edge() }
+func shadowProgram() (*idlgen.Program, map[*idlgen.Function]string) {
+	c := &idlgen.File{Path: "c.thrift", GoNS: "pc", Structs: []*idlgen.Struct{simpleStruct("SC")},
+		Services: []*idlgen.Service{{Name: "Root", Functions: []*idlgen.Function{{Name: "root_op", Ret: base(idlgen.I32), Args: []*idlgen.Field{fld(1, "a0", idlgen.I32)}}}}}}
+	b := &idlgen.File{Path: "b.thrift", GoNS: "pb", Includes: []int{2}, Structs: []*idlgen.Struct{simpleStruct("SB")},
+		Services: []*idlgen.Service{
+			{Name: "Root", Functions: []*idlgen.Function{{Name: "b_local_root"}}},
+			{Name: "Health", Extends: &idlgen.NamedRef{File: 2, Name: "Root"}, Functions: []*idlgen.Function{
+				{Name: "status", Ret: base(idlgen.String)}, {Name: "beat", Oneway: true, Args: []*idlgen.Field{fld(1, "a0", idlgen.I32)}}}}}}
+	a := &idlgen.File{Path: "a.thrift", GoNS: "pa", Includes: []int{1}, Structs: []*idlgen.Struct{simpleStruct("SA")},
+		Services: []*idlgen.Service{
+			{Name: "Health", Functions: []*idlgen.Function{{Name: "local_check", Ret: base(idlgen.I32), Args: []*idlgen.Field{fld(1, "a0", idlgen.I32)}}}},
+			{Name: "Root", Functions: []*idlgen.Function{{Name: "a_local_root"}}},
+			{Name: "Gateway", Extends: &idlgen.NamedRef{File: 1, Name: "Health"}, Functions: []*idlgen.Function{{Name: "route", Ret: base(idlgen.I32), Args: []*idlgen.Field{fld(1, "a0", idlgen.I32)}}}},
+			{Name: "Edge", Extends: &idlgen.NamedRef{File: 0, Name: "Gateway"}, Functions: []*idlgen.Function{{Name: "edge"}}}}}
+	return &idlgen.Program{Files: []*idlgen.File{a, b, c}}, map[*idlgen.Function]string{}
+}
+
+// every Go keyword, every predeclared identifier, and the identifiers the templates use themselves
+var goKeywordNames = []string{"break", "default", "func", "interface", "select", "case", "defer", "go", "map", "struct", "chan", "else", "goto",
+	"package", "switch", "const", "fallthrough", "if", "range", "type", "continue", "for", "import", "return", "var"}
+var goPredeclaredNames = []string{"bool", "byte", "complex64", "complex128", "error", "float32", "float64", "int", "int8", "int16", "int32", "int64",
+	"rune", "string", "uint", "uint8", "uint16", "uint32", "uint64", "uintptr", "any", "comparable", "true", "false", "iota", "nil", "append", "cap",
+	"clear", "close", "complex", "copy", "delete", "imag", "len", "make", "max", "min", "new", "panic", "print", "println", "real", "recover"}
+var templateNames = []string{"p", "err", "ctx", "r", "args", "result", "success", "self", "handler", "seqId", "iprot", "oprot", "retval", "err2", "x", "v",
+	"name", "processor", "thrift", "context", "fmt", "ok", "c", "t", "f"}
+
+// keywordProgram: the aimed unit for names. Every name of the three lists is a function name, an argument name (in a
+// window of 6 per function, with int / string / list / struct types) and a throws member name (except `success`, which
+// collides with the synthesized field: docs/C08.md), over value / void functions of four services, one extending another;
+// `_result` and `_args` are arguments of one more function (compiled, not driven: unexported Go fields).
+func keywordProgram() (*idlgen.Program, map[*idlgen.Function]string) {
+	names := append(append(append([]string{}, goKeywordNames...), goPredeclaredNames...), templateNames...)
+	f := &idlgen.File{Path: "a.thrift", GoNS: "pkw"}
+	f.Structs = []*idlgen.Struct{simpleStruct("SK"),
+		{Kind: 'e', Name: "XA", Fields: []*idlgen.Field{fld(1, "msg", idlgen.String)}},
+		{Kind: 'e', Name: "XB", Fields: []*idlgen.Field{fld(1, "code", idlgen.I32)}}}
+	ref := func(n string) *idlgen.Type { return &idlgen.Type{Kind: idlgen.Named, Named: &idlgen.NamedRef{File: 0, Name: n}} }
+	types := []*idlgen.Type{base(idlgen.I32), base(idlgen.String), {Kind: idlgen.List, Elem: base(idlgen.I32)}, ref("SK"), base(idlgen.Bool), base(idlgen.I64)}
+	svcs := []*idlgen.Service{{Name: "KwA"}, {Name: "KwB", Extends: &idlgen.NamedRef{File: 0, Name: "KwA"}}, {Name: "KwC"}, {Name: "KwD", Extends: &idlgen.NamedRef{File: 0, Name: "KwC"}}}
+	pick := func(start, k int, skip string) []string {
+		var out []string
+		for j := 0; len(out) < k; j++ {
+			n := names[(start+j)%len(names)]
+			if n != skip {
+				out = append(out, n)
+			}
+		}
+		return out
+	}
+	for i, n := range names {
+		fn := &idlgen.Function{Name: n}
+		switch i % 3 {
+		case 0:
+			fn.Ret = base(idlgen.I32)
+		case 1:
+			fn.Ret = ref("SK")
+		}
+		for j, an := range pick(i, 6, "") {
+			fn.Args = append(fn.Args, &idlgen.Field{ID: int16(j + 1), HasID: true, Name: an, Type: types[(i+j)%len(types)]})
+		}
+		if i%2 == 0 {
+			for j, tn := range pick(i+3, 2, "success") {
+				fn.Throws = append(fn.Throws, &idlgen.Field{ID: int16(j + 1), HasID: true, Name: tn, Type: ref([]string{"XA", "XB"}[j])})
+			}
+		}
+		sv := svcs[i*len(svcs)/len(names)]
+		sv.Functions = append(sv.Functions, fn)
+	}
+	svcs[3].Functions = append(svcs[3].Functions, &idlgen.Function{Name: "underscore_args", Ret: base(idlgen.I32),
+		Args: []*idlgen.Field{fld(1, "_result", idlgen.I32), fld(2, "_args", idlgen.I32), fld(3, "nil", idlgen.String)}})
+	f.Services = svcs
+	return &idlgen.Program{Files: []*idlgen.File{f}}, map[*idlgen.Function]string{}
 }
